@@ -215,7 +215,9 @@ impl<'a, R: 'a + Read> CompressionLayerReader<'a, R> {
                 Ok(brotli::Decompressor::new(
                     // Make the Decompressor work only on the compressed block's bytes, no more
                     inner.take(compressed_block_size as u64),
-                    compressed_block_size,
+                    // The buffer is allocated eagerly: do not let a size read from
+                    // the archive request more than a block worth of memory
+                    std::cmp::min(compressed_block_size, UNCOMPRESSED_DATA_SIZE as usize),
                 ))
             }
             None => Err(Error::MissingMetadata),
